@@ -471,6 +471,32 @@ func runC11(c *Ctx) {
 	}
 	c.check(len(eNamed) == 0 && nNamed > 0, "C11.R3", "named-entries aml.pOpcodeTable", fmt.Sprintf("%d named entries start with a NameString", nNamed), strings.Join(eNamed, "; "))
 	c.check(len(eDefer) == 0 && nDefer > 0, "C11.R3", "deferred-entries aml.pOpcodeTable", fmt.Sprintf("%d deferred entries start with PkgLen", nDefer), strings.Join(eDefer, "; "))
+	// every deferred block is parsed, wherever it hangs in the tree: the walk of
+	// parseDeferredBlocks descends into every child
+	if pdb := m.lookupMethod(aml, "Parser", "parseDeferredBlocks"); pdb == nil {
+		c.unresolved("C11.R3", "Parser.parseDeferredBlocks")
+	} else {
+		g := newIG(m, pdb, nil)
+		bad, nrec := "", 0
+		var where []string
+		for n := range g.Ins {
+			if !m.callsTo(g.Ins[n], pdb) {
+				continue
+			}
+			nrec++
+			p, inLoop := g.loopBypass(n)
+			if !inLoop {
+				bad = "the recursive call is not in the loop over the children"
+			} else if p != nil {
+				bad = "the walk can go on to the next child without descending into this one: deferred blocks below it are never parsed"
+				where = g.where(p, 8)
+			}
+		}
+		if nrec == 0 {
+			bad = "parseDeferredBlocks no longer descends into the children of an object"
+		}
+		c.check(bad == "", "C11.R3", "deferred-all-children "+m.fnName(pdb), "the walk over the tree descends into every child of every object", bad, where...)
+	}
 	c.check(len(eLast) == 0, "C11.R3", "list-args-last aml.pOpcodeTable", "PkgLen only first, TermList/FieldList/ByteList only last", strings.Join(eLast, "; "))
 
 	// ================= R4 =================
